@@ -80,7 +80,13 @@ fn range_lists(n: usize) -> Vec<Vec<(u64, usize)>> {
 fn c08_local_reader() {
     let rt = tokio::runtime::Builder::new_current_thread().enable_all().build().unwrap();
     let d = data(120);
-    let scripts: Vec<Vec<u8>> = vec![vec![], vec![1], vec![1, 0], vec![3, 0, 0, 2], vec![0, 7, 1, 0, 50], vec![2, 2, 0]];
+    let mut scripts: Vec<Vec<u8>> = vec![vec![], vec![1], vec![1, 0], vec![3, 0, 0, 2], vec![0, 7, 1, 0, 50], vec![2, 2, 0]];
+    if std::env::var("VERIF_COMPANION_DEEP").is_ok() {
+        // thorough tier: 60 random read scripts (short reads of 1..60 bytes, Pending = 0) from VERIF_SEED
+        let seed: u64 = std::env::var("VERIF_SEED").ok().and_then(|s| s.parse().ok()).unwrap_or(1);
+        let mut r = Rng(0x10ca_1000_0000_0001 ^ seed.wrapping_mul(0x9e37_79b9_7f4a_7c15));
+        for _ in 0..60 { let n = 1 + r.below(7) as usize; let mut sc: Vec<u8> = (0..n).map(|_| if r.below(3) == 0 { 0 } else { 1 + r.below(60) as u8 }).collect(); sc.push(1 + r.below(60) as u8); scripts.push(sc); }   // (a script of Pending only would never make progress)
+    }
     let mut cases = 0;
     for ranges in range_lists(d.len()) {
         for script in &scripts {
@@ -174,7 +180,10 @@ fn c08_http_reader() {
         scripts.push((ServerScript { cut_after: vec![5, 4, 3], piece }, 2));                          // repeated cuts, budget exhausted
         scripts.push((ServerScript { cut_after: vec![30, 0, 7], piece }, 3));                         // cut exactly at the end of the first run is no failure
     }
-    for _ in 0..10 { scripts.push((ServerScript { cut_after: (0..rng.below(4)).map(|_| rng.below(31) as usize).collect(), piece: 1 + rng.below(9) as usize }, rng.below(4) as u32)); }
+    let deep = std::env::var("VERIF_COMPANION_DEEP").is_ok();
+    let seed: u64 = std::env::var("VERIF_SEED").ok().and_then(|s| s.parse().ok()).unwrap_or(1);
+    if deep { rng = Rng(0x0808_0808_4242_1111 ^ seed.wrapping_mul(0x9e37_79b9_7f4a_7c15)); }
+    for _ in 0..(if deep { 400 } else { 10 }) { scripts.push((ServerScript { cut_after: (0..rng.below(4)).map(|_| rng.below(31) as usize).collect(), piece: 1 + rng.below(9) as usize }, rng.below(4) as u32)); }
     for (script, retries) in scripts {
         let (d2, sc, ranges2) = (d.clone(), script.clone(), ranges.clone());
         let (got, log) = rt.block_on(async move {
